@@ -272,6 +272,40 @@ def run_concurrent(ctx):
     ctx.note("concurrent_inconclusive_timing", inconclusive)
 
 
+def run_bursts(ctx):
+    """Failures recorded at the same instant by several callers must all be counted (the counter is one atomic
+    add in the LTS: C20_concurrent_counter_nonneg / cstep).  N callers, all forwarded while closed, fail together;
+    with threshold N-1 the next call must be rejected, with threshold N it must be forwarded (recovery 1 h)."""
+    quick = ctx.tier == "quick"
+    rounds = 150 if quick else 1500
+    cases, cid = [], 3 * 10**6
+    for n in (2, 3, 4, 6, 8):
+        for out in ("E", "P"):
+            for th, want in ((n - 1, "rejected"), (n, "forwarded")):
+                cid += 1
+                cases.append({"id": cid, "threshold": th, "recover_ns": HOUR, "mock": (cid % 3 == 0), "burst": n, "burst_out": out,
+                              "rounds": rounds if want == "rejected" else max(20, rounds // 6), "want": want})
+    rc, obs, err = hv.run_harness("c20", [{k: v for k, v in c.items() if k != "want"} for c in cases], timeout=1200)
+    byid = {o["id"]: o for o in obs}
+    total = 0
+    for c in cases:
+        o = byid.get(c["id"])
+        if not o:
+            ctx.report("harness-crash-burst", "executor died on a burst scenario: " + err[-300:], {"case": c, "failing_input": True})
+            continue
+        f, r, x = o.get("burst_forwarded", 0), o.get("burst_rejected", 0), o.get("burst_other", 0)
+        total += f + r
+        ctx.count_case("burst|%d|%s|%d" % (c["burst"], c["burst_out"], c["threshold"]), nontrivial=r > 0)
+        bad = f if c["want"] == "rejected" else r
+        if bad:
+            ctx.report("breaker-burst:%s-although-should-be-%s" % ("forwarded" if c["want"] == "rejected" else "rejected", c["want"]),
+                       "%d callers failing at the same instant (outcome %s), threshold %d: in %d of %d rounds the next call was %s; "
+                       "the property requires it to be %s (every failure of a forwarded call counts)"
+                       % (c["burst"], c["burst_out"], c["threshold"], bad, f + r, "forwarded" if c["want"] == "rejected" else "rejected", c["want"]),
+                       {"case": c, "observed": o, "failing_input": True})
+    ctx.note("burst_rounds", total)
+
+
 def first_diff(a, b):
     A, B = a.split(" "), b.split(" ")
     for i, (x, y) in enumerate(zip(A, B)):
@@ -292,6 +326,7 @@ def run(ctx):
     hv.build_harness("c20")
     hv.build_modelrun("c20")
     run_concurrent(ctx)
+    run_bursts(ctx)
     cases = gen_cases(ctx)
     rc, obs, err = hv.run_harness("c20", cases)
     byid = {o["id"]: o for o in obs}
